@@ -131,7 +131,9 @@ def c06_post(cases, tier, seed):
 
 def c12_post(cases, tier, seed):
     """every pooled module under optimize=true and optimize=false (other options as enumerated)"""
-    cases = sample(cases, 6000 if tier == "quick" else 60000, seed)
+    must = [c for c in cases if c.get("kind") == "optdiff"]          # written for this comparison: all of them
+    rest = [c for c in cases if c.get("kind") != "optdiff" and not str(c.get("case", "")).startswith("G-")]
+    cases = must + sample_stratified(rest, (6000 if tier == "quick" else 60000) - len(must), seed)
     out = []
     for i, c in enumerate(cases):
         if "case" not in c:
@@ -219,7 +221,7 @@ PROPS = {
     ),
     "C12": dict(
         mc=[dict(module="MC_C01"), dict(module="MC_C03"), dict(module="MC_C04"), dict(module="MC_C05"), dict(module="MC_C13"),
-            dict(module="MC_C02"), dict(module="MC_C06", heap="10g")],
+            dict(module="MC_C02"), dict(module="MC_C06", heap="10g"), dict(module="MC_C07")],
         post=c12_post, group_by=lambda cid: cid.split("#")[0],
         judge="Judge_C12", want=["js"],
         rule="the pooled modules enumerated for C01-C05 and C13 (all attribute/children/slot/directive/v-model shapes, "
